@@ -47,14 +47,14 @@ def register(reg):
         ],
         loops={
             1: Loop(fingerprint="while True", decreases="len(gaf_file.lines) - gaf_file.pos", invariant={
-                "reader-frame": "gaf_file.lines == old(gaf_file).lines and gaf_file.offs == old(gaf_file).offs and gaf_file.idx == old(gaf_file).idx "
+                "reader-frame": "same(gaf_file.lines, old(gaf_file).lines) and gaf_file.offs == old(gaf_file).offs and gaf_file.idx == old(gaf_file).idx "
                                 "and 0 <= gaf_file.pos <= len(gaf_file.lines)",
                 "every-traversed-node-lists-the-offset": A_INV.format(jmax="gaf_file.pos", jfull="gaf_file.pos", pmax="0"),
                 "every-listed-offset-is-a-traversing-record": B_INV.format(jmax="gaf_file.pos", jfull="gaf_file.pos", pmax="0"),
                 "no-empty-entry": NONEMPTY,
             }),
             2: Loop(index="it2", fingerprint="for a in alignment", invariant={
-                "reader-frame": "gaf_file.lines == old(gaf_file).lines and gaf_file.offs == old(gaf_file).offs and gaf_file.idx == old(gaf_file).idx "
+                "reader-frame": "same(gaf_file.lines, old(gaf_file).lines) and gaf_file.offs == old(gaf_file).offs and gaf_file.idx == old(gaf_file).idx "
                                 "and 1 <= gaf_file.pos <= len(gaf_file.lines)",
                 "every-traversed-node-lists-the-offset": A_INV.format(jmax="gaf_file.pos", jfull="gaf_file.pos - 1", pmax="it2"),
                 "every-listed-offset-is-a-traversing-record": B_INV.format(jmax="gaf_file.pos", jfull="gaf_file.pos - 1", pmax="it2"),
@@ -67,7 +67,9 @@ def register(reg):
                                "src_j[(K(gaf_file.pos - 1, it2 - 1), len(out_dict[K(gaf_file.pos - 1, it2 - 1)]) - 1)] = gaf_file.pos - 1\n"
                                "src_p[(K(gaf_file.pos - 1, it2 - 1), len(out_dict[K(gaf_file.pos - 1, it2 - 1)]) - 1)] = it2 - 1",
         },
-        assert_at={"before:out_dict[": {"node-known": "a in nodes and 'SN' in nodes[a].tags and 'SO' in nodes[a].tags and 'LN' in nodes[a].tags",
+        assert_at={"before:try:": {"record-just-read": "gaf_file.pos >= 1 and mapping == gaf_file.lines[gaf_file.pos - 1]"},
+                   "before:out_dict[": {"node-known": "a in nodes and 'SN' in nodes[a].tags and 'SO' in nodes[a].tags and 'LN' in nodes[a].tags",
+                                   "a-is-the-traversed-node": "a == tr(gaf_file.pos - 1)[it2 - 1]",
                                    "key-is-K": "keyof(a) == K(gaf_file.pos - 1, it2 - 1)"},
                    "before:for a in alignment": {"alignment-is-tr": "same(alignment, tr(gaf_file.pos - 1))", "alignment-len": "len(alignment) == NT(gaf_file.pos - 1)", "offset-before-read": "offset == gaf_file.offs[gaf_file.pos - 1]"}},
         ensures={
